@@ -118,6 +118,7 @@ pub fn run(prop: &str, a: &Args, rep: &mut Report) {
     // ---- long ----
     let mut rng = Rng::derive(a.seed, a.shard, 3);
     let mut li = 0u64;
+    let mut par_long: Vec<Pre> = Vec::new();
     for (i, n) in mix.long_lens.iter().enumerate() {
         if cfg!(miri) || (a.variant == "valgrind" && *n > 40_000) {
             break; // far too slow under Miri; under valgrind only the shorter long programs are run
@@ -139,10 +140,18 @@ pub fn run(prop: &str, a: &Args, rep: &mut Report) {
                 }
                 let c = gen_long(&mut rng, n, variant);
                 rep.set("long_cells", format!("{}:{}", mix.long_lens[i], c.class));
+                if n <= 8_400 && par_long.len() < 24 {
+                    par_long.push(pre_run(c.clone(), format!("long#{n}.{variant}"), 4_000_000));
+                }
                 batch.push(pre_run(c, format!("long#{n}.{variant}"), 4_000_000));
                 handle(rep, std::mem::take(&mut batch));
             }
         }
+    }
+    // programs of mixed sizes whose native code spans one to many pages, built, compiled, run and
+    // dropped by 8 threads at once
+    if !par_long.is_empty() {
+        crate::mon_par::exec_par(rep, prop, &par_long, engine.unwrap_or(Engine::Interp));
     }
 }
 
